@@ -89,6 +89,12 @@ func RunC10Typed(c *core.Ctx) {
 	r := c.Rng
 	n := []int{0, 1, 2, 3, 5, 9, 16}[r.Intn(7)]
 	kind := []string{"Array", "List", "Set", "Stack", "Queue"}[r.Intn(5)]
+	if r.Chance(1, 60) && kind != "Queue" {
+		// a long document now and then (the scanner is quadratic in the length of the
+		// source, so a few hundred items are about as long as a case should be)
+		n = []int{300, 600}[r.Intn(2)]
+		c.Cover("typed.long-documents")
+	}
 	var v any
 	var want, label string
 	multi := false
